@@ -16,17 +16,28 @@ def _has_mutable(t):
     return bool(t) and any(isinstance(v, _MUTABLE) for v in (t.values() if isinstance(t, dict) else t))
 
 
-def _set_in_place(obj, snap):
+def _set_in_place(obj, snap, deep=True):
+    """deep: the import-time snapshot must stay pristine, so its contents are copied; a simulated process's own
+    state is put back as the very objects it consisted of (a context switch copies nothing: whoever holds a
+    reference into that state - the caller of the library, say - must still alias it afterwards)."""
+    cp = copy.deepcopy if deep else (lambda v: v)
     if isinstance(obj, dict):
         obj.clear()
-        obj.update(copy.deepcopy(snap))
+        obj.update(cp(snap))
     elif isinstance(obj, list):
-        obj[:] = copy.deepcopy(snap)
+        obj[:] = cp(snap)
     elif isinstance(obj, set):
         obj.clear()
-        obj.update(copy.deepcopy(snap))
+        obj.update(cp(snap))
     elif isinstance(obj, bytearray):
         obj[:] = snap
+
+
+def _differs(obj, snap):
+    try:
+        return bool(obj != snap)
+    except Exception:           # e.g. NumPy arrays inside: "truth value is ambiguous"
+        return True
 
 
 class Baseline:
@@ -96,7 +107,7 @@ class Baseline:
             fn.__kwdefaults__ = copy.deepcopy(kd)
         for obj, snap in self.objs:
             try:
-                if obj != snap:
+                if _differs(obj, snap):
                     _set_in_place(obj, snap)
             except Exception:
                 pass
@@ -136,7 +147,8 @@ class ProcessStates:
                     extras[i] = ex
         fdicts = {i: dict(fn.__dict__) for i, (fn, snap) in enumerate(b.fdicts) if fn.__dict__ and fn.__dict__ != snap}
         fdefs = [(copy.deepcopy(fn.__defaults__), copy.deepcopy(fn.__kwdefaults__)) for fn, _, _ in b.funcs]
-        objs = {i: copy.deepcopy(obj) for i, (obj, snap) in enumerate(b.objs) if obj != snap}
+        # shallow: the container is copied, what it contains is kept by reference (see _set_in_place)
+        objs = {i: copy.copy(obj) for i, (obj, snap) in enumerate(b.objs) if _differs(obj, snap)}
         attrs = {i: getattr(owner, attr, val) for i, (owner, attr, val) in enumerate(b.attrs)
                  if getattr(owner, attr, val) is not val}
         if not (extras or fdicts or objs or attrs or b.funcs or b.caches):
@@ -162,7 +174,7 @@ class ProcessStates:
             fn.__defaults__, fn.__kwdefaults__ = copy.deepcopy(d), copy.deepcopy(kd)
         for i, val in objs.items():
             try:
-                _set_in_place(b.objs[i][0], val)
+                _set_in_place(b.objs[i][0], val, deep=False)
             except Exception:
                 pass
         for i, val in attrs.items():
